@@ -1,14 +1,16 @@
 import SophiaProofs.Props.C12
 open SophiaProofs.C12
-#print axioms no_panic_witness
-#print axioms no_panic_refuted
+#print axioms unique_parent_lookup_is_get
 #print axioms no_panic_partial
+#print axioms no_panic_nolist
 #print axioms dropped_iff_not_jsonld
 #print axioms isJsonLd_spec
+#print axioms roundtrip_nolist
+#print axioms roundtrip_nolist_closed
+#print axioms roundtrip_nolist_partial
+#print axioms node_object_roundtrip
 #print axioms roundtrip_refuted_cross_graph
 #print axioms roundtrip_refuted_self_list
 #print axioms roundtrip_refuted_typed_list
 #print axioms suppressed_compensated_refuted
 #print axioms roundtrip_all_refuted
-#print axioms roundtrip_nolist_partial
-#print axioms node_object_roundtrip
